@@ -69,6 +69,9 @@ def build(B, spec, name="x", relabel=()):
     for extra in spec.get("extra_coords", []):
         d0 = extra
         da = da.assign_coords({f"aux_{d0}": (d0, [f"k{i}" for i in range(byname[d0][1])])})
+    for d0 in spec.get("reverse", []):
+        # the same labels, stored in the opposite order
+        da = da.isel({d0: slice(None, None, -1)})
     for (d0, i0) in spec.get("nan_at", []):
         # a fully missing label along d0 (the Sanitizer removes it and puts it back)
         m = xr.DataArray(np.arange(byname[d0][1]) == i0, dims=(d0,), coords={d0: da[d0]})
@@ -275,6 +278,8 @@ def layouts(tier):
     out["LIST|same feature dim name"] = {"container": "list", "items": [i1, i1], "sample_dims": ["time"]}
     out["LIST|sample dim at different positions"] = {"container": "list", "items": [i3, {"dims": [("time", 3, "int"), ("lon2", 2, "int")], "order": ["lon2", "time"]}], "sample_dims": ["time"]}
     out["LIST|1 item"] = {"container": "list", "items": [i3], "sample_dims": ["time"]}
+    out["LIST|second item stores the samples in reverse order"] = {"container": "list", "items": [i3, dict(i2, reverse=["time"])], "sample_dims": ["time"]}
+    out["LIST|first item stores the samples in reverse order"] = {"container": "list", "items": [dict(i1, reverse=["time"]), i2], "sample_dims": ["time"]}
     out["LIST|3 items mixed rank"] = {"container": "list", "items": [i1, i3, i2], "sample_dims": ["time"]}
     if tier == "thorough":
         # product: 1..2 sample dims x 1..2 feature dims x all orders x index kinds (one kind per layout)
